@@ -308,10 +308,13 @@ UnionClausesI(e) ==
 
 UnionClausesP(e) ==
   LET a == e.pre.ents  b == e.arg.ents  r == e.ret.ents
+      \* an operand that already holds several points at one time (possible after dejitter or appendTier) is outside what
+      \* the statement describes ("labels of coinciding points joined" refers to a point of A meeting a point of B)
+      distinct == (\A i, j \in Idx(a) : i # j => a[i].t # a[j].t) /\ (\A i, j \in Idx(b) : i # j => b[i].t # b[j].t)
   IN [ C10_union_never_fails |-> Ok(e),
        C10_point_union_times |-> RetTier(e) => Times(r) = Times(a) \cup Times(b),
-       C10_point_union_one_point_per_time |-> RetTier(e) => \A i, j \in Idx(r) : i # j => r[i].t # r[j].t,
-       C10_point_union_labels_joined |-> RetTier(e) => \A j \in Idx(r) :
+       C10_point_union_one_point_per_time |-> (RetTier(e) /\ distinct) => \A i, j \in Idx(r) : i # j => r[i].t # r[j].t,
+       C10_point_union_labels_joined |-> (RetTier(e) /\ distinct) => \A j \in Idx(r) :
             LET la == Labels(SelectSeq(a, LAMBDA p : p.t = r[j].t))
                 lb == Labels(SelectSeq(b, LAMBDA p : p.t = r[j].t))
             IN r[j].l = JoinL(la \o lb, "-"),
